@@ -2,6 +2,7 @@
 from contracts.c05_solve import SolverDefaults
 from contracts.c02_solve_t import SolveTContract
 from contracts.c05_solve import SolvePeriodContract
+from contracts.c11_copy import InitOwnership
 from props.solve_bounded import SolveGrammarDifferential, SolveTScripted
 from verif.crosscheck import TARGETS as _XT, EncoderCrossCheck
 from verif.spec import PropertySpec
@@ -11,13 +12,14 @@ _c.shards = {'generic/offset0': 2, 'parser/offset0': 2, 'generic/offset': 6, 'pa
 
 PROPERTY = PropertySpec(
     id='C02',
-    contracts=[_c, SolvePeriodContract(), SolverDefaults()],
+    contracts=[_c, SolvePeriodContract(), SolverDefaults(), InitOwnership('model')],
     bounded=[SolveTScripted(), SolveGrammarDifferential()],
     level='proof',
     explanation='BaseModel.solve_t is symbolically executed from its real ast; the iteration loop is cut by an inductive invariant over '
                 'a ghost pass history, hooks are replaced by their interface contract, and every exit (return or exception) is checked '
                 'against the postconditions taken from the property statement, for every max_iter, min_iter, tol, offset, option '
-                'string and check-vector history (no bound). solve_period is proved to forward to solve_t at the located position.',
+                'string and check-vector history (no bound). solve_period is proved to forward to solve_t at the located position; the constructor is proved to give the instance '
+                'its own copies of the class\'s ENDOGENOUS and CHECK (the list the convergence test reads), each equal to its class-level list.',
     level_text='Every clause of the statement is an obligation on the real solve_t / solve_period source discharged by z3 for all inputs '
                '(unbounded in max_iter, number of check variables, span length); the bounded scripted-model run is conformance of the hook '
                'interface contract and the replay harness, not part of the proof.',
